@@ -131,7 +131,7 @@ type fakeTLSServer struct {
 // serve implements the scripted (mis)behaving server on conn.
 func (s *fakeTLSServer) serve(conn net.Conn, behavior string) {
 	defer conn.Close()
-	conn.SetDeadline(time.Now().Add(20 * time.Second))
+	conn.SetDeadline(time.Now().Add(90 * time.Second))
 	io.WriteString(conn, "220 fake.example ESMTP\r\n")
 	br := bufio.NewReader(conn)
 	inTLS := false
@@ -324,7 +324,7 @@ func evalC10Client(c C10ClientCase) (f *h.Finding) {
 	}
 	select {
 	case <-done:
-	case <-time.After(30 * time.Second):
+	case <-time.After(180 * time.Second):
 		return h.F("c10-client-hang", "%s: the scripted server did not finish", desc)
 	}
 	srv.mu.Lock()
